@@ -286,8 +286,8 @@ type proxy struct {
 	closed  atomic.Bool
 }
 
-func newProxy(backend string) *proxy {
-	l, err := net.Listen("tcp4", "127.0.0.1:0")
+func newProxy(host, backend string) *proxy {
+	l, err := net.Listen("tcp4", host+":0")
 	if err != nil {
 		panic(err)
 	}
@@ -382,8 +382,15 @@ type world struct {
 	targets   []*targetRec // all incarnations
 }
 
-func quietOptions(pool int) gen.NodeOptions {
+// every world listens on its own loopback address (127.x.y.z): thousands of short-lived TCP links to
+// one address:port pair would exhaust the ephemeral ports (TIME_WAIT) in a long run
+func (w *world) host() string {
+	return fmt.Sprintf("127.%d.%d.%d", 1+int(os.Getpid()%200), 1+int(w.id/250)%250, 1+int(w.id%250))
+}
+
+func quietOptions(pool int, host string) gen.NodeOptions {
 	o := gen.NodeOptions{}
+	o.Network.Acceptors = []gen.AcceptorOptions{{Host: host}}
 	o.Log.DefaultLogger.Disable = true
 	o.Network.Cookie = "netfail-cookie"
 	o.Network.Registrar = nullRegistrar{}
@@ -413,11 +420,11 @@ func (w *world) routeToB() gen.NetworkRoute {
 		if w.px != nil {
 			w.px.stop()
 		}
-		w.px = newProxy(fmt.Sprintf("127.0.0.1:%d", port))
+		w.px = newProxy(w.host(), fmt.Sprintf("%s:%d", w.host(), port))
 		port = w.px.port()
 	}
 	return gen.NetworkRoute{
-		Route:  gen.Route{Host: "127.0.0.1", Port: port, HandshakeVersion: info.HandshakeVersion, ProtoVersion: info.ProtoVersion},
+		Route:  gen.Route{Host: w.host(), Port: port, HandshakeVersion: info.HandshakeVersion, ProtoVersion: info.ProtoVersion},
 		Cookie: "netfail-cookie",
 	}
 }
@@ -426,7 +433,7 @@ func newWorld(nobs int, pool int, useProxy bool) *world {
 	w := &world{id: atomic.AddInt64(&worldSeq, 1), pool: pool, useProxy: useProxy}
 	an := gen.Atom(fmt.Sprintf("nfa%dp%d@localhost", w.id, os.Getpid()))
 	w.bname = gen.Atom(fmt.Sprintf("nfb%dp%d@localhost", w.id, os.Getpid()))
-	a, err := ergo.StartNode(an, quietOptions(pool))
+	a, err := ergo.StartNode(an, quietOptions(pool, w.host()))
 	if err != nil {
 		panic(err)
 	}
@@ -445,7 +452,7 @@ func newWorld(nobs int, pool int, useProxy bool) *world {
 
 // startB starts (the next incarnation of) node B with ntargets target actors and (re)installs A's route
 func (w *world) startB(ntargets int) {
-	b, err := ergo.StartNode(w.bname, quietOptions(w.pool))
+	b, err := ergo.StartNode(w.bname, quietOptions(w.pool, w.host()))
 	if err != nil {
 		panic(err)
 	}
@@ -479,7 +486,14 @@ func (w *world) startB(ntargets int) {
 func (w *world) connect() error {
 	_, err := w.a.Network().GetNode(w.bname)
 	if err != nil {
-		return err
+		// GetNode hides the cause behind ErrNoRoute: ask again with the route itself
+		if routes, e := w.a.Network().Route(w.bname); e == nil && len(routes) > 0 {
+			if _, e2 := w.a.Network().GetNodeWithRoute(w.bname, routes[0]); e2 != nil {
+				return fmt.Errorf("%w (%v)", err, e2)
+			}
+		} else {
+			return err
+		}
 	}
 	deadline := time.Now().Add(2 * time.Second)
 	for time.Now().Before(deadline) {
